@@ -128,6 +128,9 @@ def collocRow (S : Space K) (x : K) : Option (ℕ → K) :=
 /-- `collocation_matrix(…)`: row `i` is the row of the point `xgrid[i]` -/
 def collocationMatrix (S : Space K) (xgrid : ℕ → K) : ℕ → Option (ℕ → K) := fun i => collocRow S (xgrid i)
 
+/-- `nbasis` of a uniform-cubic space (degree 3) -/
+def cuNb (ncells : ℕ) (periodic : Bool) : ℕ := if periodic then ncells else ncells + 3
+
 /-- one row on the uniform-cubic path (interp.py:167-170) -/
 def cuCollocRow (trunc : K → ℤ) (xmin dx : K) (ncells nb : ℕ) (periodic : Bool) (x : K) : ℕ → K :=
   let so := cuFindSpan trunc xmin dx x (ncells : ℤ)
